@@ -185,7 +185,7 @@ func checkC15(c RenameCase) Verdict {
 	var src string
 	var hdr string
 	if c.Kind == "flat" {
-		src, hdr = c.P.Source(), c.P.Header()
+		src, hdr = c.P.Source(), c.P.BaselineSource()
 	} else {
 		src = c.C.source(true)
 		bc := *c.C
